@@ -334,6 +334,11 @@ func handleLMove(params internal.HandlerFuncParams) ([]byte, error) {
 		return nil, errors.New("both source and destination must be lists")
 	}
 
+	// Return nil if the source list is empty, there is no element to move
+	if len(sourceList) == 0 {
+		return []byte("$-1\r\n"), nil
+	}
+
 	switch whereFrom {
 	case "left":
 		err = params.SetValues(params.Context, map[string]interface{}{
